@@ -3,6 +3,8 @@ package props
 import (
 	"bytes"
 	"encoding/binary"
+	"fmt"
+	"sync"
 	"testing"
 
 	gots "github.com/Comcast/gots/v2"
@@ -175,4 +177,59 @@ func TestC13Exhaustive(t *testing.T) {
 func FuzzC13(f *testing.F) {
 	c13Rule()
 	f.Fuzz(propC13.Fuzz())
+}
+
+// C13 variant "concurrent": the checksum is a pure function; goroutines checksumming different strings at
+// the same time must each get the reference value (see the C04 variant for why this cannot raise a false alarm).
+func checkC13Conc(c CaseConc, x *hx.Ctx) *hx.Failure {
+	x.NonTrivial()
+	x.Label("concurrent-goroutines")
+	errs := make(chan string, c.Workers)
+	var wg sync.WaitGroup
+	for w := 0; w < c.Workers; w++ {
+		wg.Add(1)
+		go func(w int) {
+			defer wg.Done()
+			defer func() {
+				if r := recover(); r != nil {
+					errs <- fmt.Sprintf("ComputeCRC panicked in goroutine %d: %v", w, r)
+				}
+			}()
+			buf := make([]byte, 300)
+			for i := 0; i < c.Iters; i++ {
+				n := (w*37 + i*11) % 300
+				for j := 0; j < n; j++ {
+					buf[j] = byte(w*131 + i*17 + j*7)
+				}
+				got := gots.ComputeCRC(buf[:n])
+				if want := ref.CRC32MPEG2(buf[:n]); len(got) != 4 || binary.BigEndian.Uint32(got) != want {
+					errs <- fmt.Sprintf("ComputeCRC of a %d-byte string gave %x, CRC-32/MPEG-2 is %08x (goroutine %d, iteration %d)", n, got, want, w, i)
+					return
+				}
+			}
+		}(w)
+	}
+	wg.Wait()
+	close(errs)
+	for e := range errs {
+		return hx.Failf("concurrent-crc", "%s while %d other goroutines were checksumming other strings", e, c.Workers-1)
+	}
+	return nil
+}
+
+var propC13Conc = hx.Register(hx.Prop[CaseConc]{ID: "C13", Variant: "concurrent",
+	Gen:   func(t *rapid.T) CaseConc { return CaseConc{Workers: 8, Iters: 4000} },
+	Check: checkC13Conc})
+
+func TestC13_Concurrent(t *testing.T) {
+	c13Rule()
+	if !hx.FirstShard() {
+		t.Skip("runs on shard 0")
+	}
+	for round := 0; round < 3; round++ {
+		if f := propC13Conc.Eval(CaseConc{Workers: 8, Iters: 4000 + round}); f != nil {
+			t.Fatalf("VIOLATION-CANDIDATE property=C13 variant=concurrent key=%s: %s", f.Key, f.Msg)
+		}
+	}
+	hx.Rec("C13").Subspace("3 rounds of 8 goroutines x 4000 checksums of goroutine-local strings of 0..299 bytes, concurrently")
 }
